@@ -36,6 +36,9 @@ SPECS = {
     'bad+ok': [['JPY', 'i:0', 'i:1'], ['USD', 'D:1.4', 'i:1']],
     'both': [['USD', 'D:0.9', 'i:1'], ['JPY', 'D:1.25', 'i:1']],
     'base': [['EUR', 'i:1', 'i:1']],
+    # float amounts whose shortest repr is a tie at the 7th decimal while
+    # the exact binary value is not
+    'usdf': [['USD', 'f:1.0000005', 'i:1'], ['JPY', 'f:8.5000015', 'i:1']],
 }
 S_QUICK = ['usd11', 'jpy', 'usdstr', 'ok+bad']
 S_ALL = list(SPECS)
@@ -299,6 +302,43 @@ def lookups(conv, model, cell, hist, st):
     return out, h64(tuple(fp))
 
 
+@guarded('C11')
+def run_mode_switch(hist):
+    """a lookup must not depend on lookups made earlier under another
+    default rounding mode: converter A answers all lookups under
+    ROUND_HALF_EVEN, then again under `mode`; its twin B (same updates, never
+    asked before) answers under `mode` only"""
+    from quantity.money import MoneyConverter
+    Money = money()
+    out = []
+    for mode in ('ROUND_UP', 'ROUND_DOWN'):
+        fps = []
+        for warm in (True, False):
+            O.set_mode('ROUND_HALF_EVEN')
+            cell = Cell(date.fromisoformat(DEFAULT_DATES[0]))
+            conv = MoneyConverter(Money.get_unit_by_symbol('EUR'), cell)
+            for ev in hist:
+                form = ev[2] if len(ev) > 2 else 'list'
+                try:
+                    conv.update(VALIDITIES[ev[0]],
+                                FORMS[form](spec_objs(ev[1])))
+                except (ValueError, TypeError):
+                    pass
+            try:
+                if warm:
+                    lookups(conv, Model(), cell, None, None)
+                O.set_mode(mode)
+                fps.append(lookups(conv, Model(), cell, None, None)[1])
+            finally:
+                O.set_mode('ROUND_HALF_EVEN')
+        if fps[0] != fps[1]:
+            out.append(('C11:lookup-depends-on-earlier-lookups:mode-switch',
+                        f"after {hist}: lookups under {mode} differ between "
+                        "a converter that was asked before under "
+                        "ROUND_HALF_EVEN and one that was not"))
+    return out
+
+
 def stored_rate(r):
     """the normal-form value of a spec rate r (exact for the alphabet: all
     spec rates have <= 6 significant fractional digits after scaling)"""
@@ -324,6 +364,12 @@ def part(prefixes, events, depth):
                 st.paths += 1
                 for sig, msg in run_history(hist, st):
                     st.violation(sig, msg, {'history': hist})
+                if len(hist) <= 2 and depth == 2:
+                    st.paths += 1
+                    st.evaluations += 4
+                    for sig, msg in run_mode_switch(hist):
+                        st.violation(sig, msg, {'history': hist,
+                                                'mode_switch': True})
     return st
 
 
@@ -359,6 +405,8 @@ def replay(case):
         Money.register_currency(c)
     if 'today' in case:
         return run_today()
+    if case.get('mode_switch'):
+        return run_mode_switch(case['history'])
     return run_history(case['history'])
 
 
